@@ -119,7 +119,7 @@ func solveOne(o *Obligation, opts solveOpts) {
 			o.Solver = "error:" + a.solver
 		}
 	}
-	if o.Result == "unsat" {
+	if o.Result == "unsat" && os.Getenv("GOVC_KEEP") == "" {
 		os.Remove(fn) // keep only the interesting queries on disk
 	}
 }
